@@ -215,6 +215,7 @@ OPS = {
 TERMINAL_OPS = {n for n, o in OPS.items() if "terminal" in o["flags"]}
 
 MIN_PROGRAM_VERSION = 2  # PyTeal's minimum; v1 ops are clamped to it
+MAX_AVM_VERSION = 11  # newest AVM version described by this table
 
 NUM_SCRATCH_SLOTS = 256
 MAX_GROUP_SIZE = 16
